@@ -76,10 +76,10 @@ func p2Cases(id, tier string, seed int64, n int) []core.Case {
 }
 
 func (c *c01) Cases(tier string, seed int64) []core.Case {
-	return p2Cases("C01", tier, seed, map[string]int{"quick": 900, "thorough": 12000}[tier])
+	return p2Cases("C01", tier, seed, map[string]int{"quick": 900, "thorough": 60000}[tier])
 }
 func (c *c03) Cases(tier string, seed int64) []core.Case {
-	return p2Cases("C03", tier, seed, map[string]int{"quick": 900, "thorough": 12000}[tier])
+	return p2Cases("C03", tier, seed, map[string]int{"quick": 900, "thorough": 60000}[tier])
 }
 
 // p2Scenario is a built scenario ready for Verify/Repair.
